@@ -403,7 +403,8 @@ def _emit_leading_comments(comments: list[str], indent: int = 0, strip_comments:
     if strip_comments or not comments:
         return []
     indent_str = "  " * indent
-    return [f"{indent_str}// {comment}" for comment in comments]
+    # An empty comment is just "//": no trailing space in canonical output
+    return [f"{indent_str}// {comment}" if comment else f"{indent_str}//" for comment in comments]
 
 
 def _emit_trailing_comment(comment: str | None, strip_comments: bool = False) -> str:
@@ -433,6 +434,8 @@ def emit_comment(comment: Comment, indent: int = 0, format_options: FormatOption
         return ""
 
     indent_str = "  " * indent
+    if not comment.text:
+        return f"{indent_str}//"
     return f"{indent_str}// {comment.text}"
 
 
